@@ -135,9 +135,26 @@ class Conc:
         self.map = {'/': delim, '*': '*', '%': '%', 'I': 'INBOX', 'i': inbox,
                     'n': '\n', '&': '&'}
         self.map.update(letters)
+        self._index()
+        self._bound: dict = {}
+
+    def _index(self):
         back = [(v, k) for k, v in self.map.items() if k != 'i']
         back.sort(key=lambda p: -len(p[0]))
         self.back = back
+
+    def bind(self, store: str) -> 'Conc':
+        """The same concretisation with the token "u" (a name part the store
+        cannot hold, see Unstorable in Namespace.tla) bound for `store`."""
+        c = self._bound.get(store)
+        if c is None:
+            c = object.__new__(Conc)
+            c.__dict__.update(self.__dict__)
+            c.map = dict(self.map)
+            c.map['u'] = UNSTORABLE_PART[store]
+            c._index()
+            self._bound[store] = c
+        return c
 
     def text(self, toks) -> str:
         return ''.join(self.map[t] for t in toks)
@@ -175,6 +192,13 @@ class Conc:
         s = self.text(toks)
         return self._string(mutf7_encode(s, self.raw_nl), _LISTMBX_OK)
 
+
+# what the token "u" stands for: a part with the Maildir++ separator (the
+# folder "a.b" is the directory of "a/b"); "tmp", a directory of every maildir
+# (filesystem layout: a part is a path component).  An ordinary name on dict.
+UNSTORABLE_PART = {'dict': 'u.v', 'pp': 'u.v', 'fs': 'tmp'}
+# store -> (backend, layout)
+STORES = {'dict': ('dict', None), 'pp': ('maildir', '++'), 'fs': ('maildir', 'fs')}
 
 # (no letter text is a substring of "inbox" in any case: pymap matches INBOX
 # against a pattern case-insensitively, which RFC 3501 neither demands nor
@@ -216,50 +240,75 @@ class Ident:
 
 class Driver:
 
-    def __init__(self, conc: Conc, backend: str = 'dict', layout: str | None = None):
-        self.conc = conc
-        self.backend = backend
-        if backend != 'dict':
-            raise NotImplementedError('maildir: later round')
-        self.w = World('dict', demo=False, users={'user1': 'pass1'})
-        self.c = self.w.connect('a', local=True)
-        self.c.take()
-        self.w.login('a')
+    def __init__(self, conc: Conc, store: str = 'dict'):
+        self.store = store
+        self.conc = conc.bind(store)
+        backend, layout = STORES[store]
+        if backend == 'dict':
+            self.w = World('dict', demo=False, users={'user1': 'pass1'})
+        else:
+            # on a scratch directory of its own, removed by close()
+            self.w = World('maildir', users={'user1': 'pass1'}, layout=layout)
+        self.names = {}           # role -> name of the live connection
+        self.nconn = 0
+        self.byes = 0
+        self._open('a')
         # a second connection of the same user, open from the start, through which the probes
         # of every second execution go: what exists is the user's, not the connection's
-        self.o = self.w.connect('o', local=True)
-        self.o.take()
-        self.w.login('o')
-        self.w.cmd('o', b'LIST "" *')
+        # (maildir: every connection has a MailboxSet of its own over the same directory)
+        self._open('o')
+        self.w.cmd(self.names['o'], b'LIST "" *')
         self.probe_via = 'a'
         self.wire: list = []      # transcript
         self.nmsg = 0
         self.ncmd = 0
+        self.bye = False          # the last command ended in BYE, without a tagged answer
+
+    def _open(self, role: str):
+        self.nconn += 1
+        name = role if role not in self.names else '%s%d' % (role, self.nconn)
+        c = self.w.connect(name, local=True)
+        c.take()
+        self.w.login(name)
+        self.names[role] = name
+        return c
 
     def close(self):
         self.w.close()
 
     def _cmd(self, line: bytes, via: str = 'a'):
-        """-> (cond or None, [Resp]); cond None = no tagged answer / garbage."""
+        """-> (cond or None, [Resp]); cond None = no tagged answer / garbage.
+        A connection the server has closed (BYE) is replaced by a new one of
+        the same user for the NEXT command: the namespace is the user's."""
         self.ncmd += 1
-        conn = self.c if via == 'a' else self.o
+        self.bye = False
+        conn = self.w.conns[self.names[via]]
         if conn.done:
-            self.wire.append((line, b'<connection closed>'))
-            return None, []
-        out = self.w.cmd(via, line)
+            conn = self._open(via)
+        out = self.w.cmd(self.names[via], line)
         self.wire.append((line, out))
         try:
             resps = rp.parse_stream(out)
         except rp.Malformed:
             return None, []
         tagged = [r for r in resps if r.kind == 'tagged']
+        if not tagged and conn.done and resps and resps[-1].kind == 'untagged' \
+                and resps[-1].cond == b'BYE':
+            self.bye = True
+            self.byes += 1
         if len(tagged) != 1 or conn.done:
             return None, resps
         return tagged[0].cond, resps
 
-    @staticmethod
-    def _okno(cond):
-        return {'ok': cond == b'OK', 'bad': cond not in (b'OK', b'NO')}
+    def _norm(self, body):
+        """maildir stores a message with LF line ends (a finding of C03, not of
+        this property): bodies are compared modulo the line end there."""
+        if body is not None and self.store != 'dict':
+            return body.replace(b'\r\n', b'\n')
+        return body
+
+    def _okno(self, cond):
+        return {'ok': cond == b'OK', 'bad': cond not in (b'OK', b'NO'), 'bye': self.bye}
 
     def _ents(self, resps, word):
         ents = []
@@ -323,7 +372,7 @@ class Driver:
                 if r.kind == 'untagged' and r.name == b'FETCH':
                     body = r.data.get(b'BODY[]')
                     msgs.append((r.data.get(b'UID'),
-                                 getattr(body, 'value', None)))
+                                 self._norm(getattr(body, 'value', None))))
         o['msgs'] = msgs
         cond3, _ = self._cmd(b'CLOSE')
         if cond3 != b'OK':
@@ -337,7 +386,7 @@ class Driver:
         cond, resps = self._cmd(b'APPEND ' + self.conc.wire_name(name)
                                 + b' {%d+}\r\n%s' % (len(body), body))
         o = self._okno(cond)
-        o['body'] = body
+        o['body'] = self._norm(body)
         o['uid'] = None
         if o['ok']:
             t = [r for r in resps if r.kind == 'tagged'][0]
@@ -402,13 +451,13 @@ class Execution:
     """One behaviour of the model executed on one fresh server."""
 
     def __init__(self, kind: str, conc: Conc, init: dict, steps: list,
-                 probes: bool = True, backend: str = 'dict'):
+                 probes: bool = True, store: str = 'dict'):
         self.kind = kind
         self.conc = conc
         self.init = init          # {'mbx': {name: n}, 'sub': set}
         self.steps = steps        # [{'cmd','r','probe','mbx','sub'}]
         self.probes = probes
-        self.backend = backend
+        self.store = store        # 'dict' | 'pp' | 'fs' (Store of Namespace.tla)
         self.events: list = []    # JSON events for the trace spec
         self.cmds: list = []
         self.drift = None
@@ -419,6 +468,7 @@ class Execution:
         self.ncmd = 0
         self.nontrivial = False
         self.nsetup = 0
+        self.byes = 0
 
     # -- identity bookkeeping ------------------------------------------------
 
@@ -458,7 +508,8 @@ class Execution:
     def _event(self, cmd, o, hp, pl=None, ps=None, st=None):
         ev = {'op': cmd[0], 'a': jname(cmd[1]),
               'b': jname(cmd[2]) if len(cmd) > 2 else [],
-              'ok': bool(o['ok']), 'bad': bool(o['bad']), 'n': int(o.get('n', 0)),
+              'ok': bool(o['ok']), 'bad': bool(o['bad']), 'bye': bool(o.get('bye')),
+              'n': int(o.get('n', 0)),
               'ents': jents(o.get('ents', [])), 'hp': bool(hp),
               'pl': jents(pl or []), 'ps': jents(ps or []),
               'st': [{'n': jname(n), 'ok': bool(s['ok']), 'm': int(s.get('n', 0))}
@@ -467,7 +518,7 @@ class Execution:
         self.cmds.append([cmd[0]] + [list(x) for x in cmd[1:]])
 
     def run(self):
-        d = Driver(self.conc, self.backend)
+        d = Driver(self.conc, self.store)
         # every second execution (by its program): the probes go through the other connection
         d.probe_via = 'o' if zlib.crc32(repr(self.steps[:3]).encode()) % 2 else 'a'
         try:
@@ -475,6 +526,7 @@ class Execution:
         finally:
             self.wire = d.wire
             self.ncmd = d.ncmd
+            self.byes = d.byes
             d.close()
         return self
 
@@ -509,8 +561,14 @@ class Execution:
             cmd, r = stp['cmd'], stp['r']
             o = d.do(cmd)
             why = None
-            if o['bad']:
-                why = 'neither OK nor NO (BAD / BYE / unparsable / wrong delimiter)'
+            if r.get('bye') or o['bye']:
+                if not r.get('bye'):
+                    why = '"* BYE" and the connection closed instead of a tagged answer'
+                elif not o['bye']:
+                    why = ('a tagged answer, model (deviation %s): BYE'
+                           % ','.join(sorted(r['dev'])))
+            elif o['bad']:
+                why = 'neither OK nor NO (BAD / unparsable / wrong delimiter)'
             elif o['ok'] != r['ok']:
                 why = f'tagged {"OK" if o["ok"] else "NO"}, model: {"OK" if r["ok"] else "NO"}'
             elif cmd[0] in ('status', 'select') and r['ok'] and o['n'] != r['n']:
@@ -608,7 +666,7 @@ class Execution:
                 self._check_ident(d, n, ident.get(n), d.status(n), True, 'at the end')
 
     _RESULT = ('events', 'cmds', 'drift', 'broken', 'devs', 'done_steps', 'wire',
-               'ncmd', 'nontrivial', 'nsetup')
+               'ncmd', 'nontrivial', 'nsetup', 'byes')
 
     def result(self, keep_events: bool) -> dict:
         out = {k: getattr(self, k) for k in self._RESULT}
@@ -622,7 +680,8 @@ class Execution:
             setattr(self, k, v)
 
     def replay_dict(self, upto=None):
-        return {'check': PROP, 'backend': self.backend, 'kind': self.kind,
+        return {'check': PROP, 'store': self.store,
+                'backend': ' '.join(x for x in STORES[self.store] if x), 'kind': self.kind,
                 'conc': self.conc.name,
                 'init': {'mbx': sorted(list(n) for n in self.init['mbx']),
                          'sub': sorted(list(n) for n in self.init['sub'])},
@@ -688,13 +747,19 @@ def has_newline(init, steps) -> bool:
 # the judge
 
 
-def judge(execs: list) -> dict:
-    """TLC validates the recorded executions against every allowed outcome.
+def judge(execs: list, store: str = 'dict') -> dict:
+    """TLC validates the recorded executions (all of one store) against every
+    allowed outcome and every deviation known for that store.
     -> {index: (reached, length, used | None)}"""
     if not execs:
         return {}
-    verd = tlc.validate_traces('Trace_Namespace.tla', 'Trace_Namespace.cfg',
-                               [e.events for e in execs])
+    scratch = tlc._scratch('c11judge')
+    try:
+        cfg = cfg_with_dev('Trace_Namespace.cfg', devs_for(store), scratch, store)
+        verd = tlc.validate_traces('Trace_Namespace.tla', cfg,
+                                   [e.events for e in execs])
+    finally:
+        shutil.rmtree(scratch, ignore_errors=True)
     res = verd.pop('_res')
     if len(verd) != len(execs):
         raise tlc.TLCError('trace validation incomplete: '
@@ -755,17 +820,46 @@ TOURS = {
 MATCH = {'quick': 'Namespace_matchq.cfg', 'thorough': 'Namespace_match.cfg'}
 SIM = {'quick': (40, 60), 'thorough': (600, 120)}     # behaviours, depth
 JUDGE_MAX = 20000
+# names a store may be unable to hold: run on the maildir stores
+ODD = [('Namespace_odd.cfg', 60)]
+# quick tier, maildir: every MD_SLICE-th path of the big tours / small name set of the matcher
+MD_SLICE = 3
 
 
-def cfg_with_dev(cfg: str, devs, scratch: str) -> str:
+_DEVSETS: dict = {}
+
+
+def devs_for(store: str) -> set:
+    """The deviations Namespace.tla knows that can apply to `store` (read from
+    the module: AllDev are those found on dict, MaildirDev those of maildir).
+    The maildir backend shares the session layer and ListTree with dict, not
+    the mailbox set: the two dict-only ones do not apply to it."""
+    if not _DEVSETS:
+        text = open(os.path.join(tlc.SPEC_DIR, SPEC)).read()
+        for name in ('AllDev', 'MaildirDev'):
+            m = re.search(r'^%s == \{([^}]*)\}' % name, text, re.M)
+            if not m:
+                raise tlc.TLCError(f'{SPEC}: no definition of {name}')
+            _DEVSETS[name] = set(re.findall(r'"([^"]+)"', m.group(1)))
+    if store == 'dict':
+        return set(_DEVSETS['AllDev'])
+    shared = _DEVSETS['AllDev'] - {'LsubOmitsMissingSubscribed', 'RenameInboxMovesInferiors'}
+    return shared | {d for d in _DEVSETS['MaildirDev']
+                     if store == 'fs' or not d.startswith('MaildirFs')}
+
+
+def cfg_with_dev(cfg: str, devs, scratch: str, store: str = 'dict') -> str:
     """The AsIs configurations follow the tree as it is believed to be: Dev =
-    the OPEN known findings (a fixed one must no longer be predicted)."""
+    the OPEN known findings (a fixed one must no longer be predicted) that
+    apply to the store; the judge's: all that apply to the store."""
     text = open(os.path.join(tlc.SPEC_DIR, cfg)).read()
     line = 'Dev = {' + ', '.join('"%s"' % d for d in sorted(devs)) + '}'
     text, n = re.subn(r'^\s*Dev <- AllDev\s*$', '  ' + line, text, flags=re.M)
-    if n != 1:
-        raise tlc.TLCError(f'{cfg}: no "Dev <- AllDev" line')
-    path = os.path.join(scratch, cfg)
+    text, k = re.subn(r'^\s*Store = "dict"\s*$', '  Store = "%s"' % store, text, flags=re.M)
+    if n != 1 or k != 1:
+        raise tlc.TLCError(f'{cfg}: no "Dev <- AllDev" / "Store = "dict"" line')
+    os.makedirs(os.path.join(scratch, store), exist_ok=True)
+    path = os.path.join(scratch, store, cfg)
     with open(path, 'w') as f:
         f.write(text)
     return path
@@ -779,15 +873,22 @@ def _describe(e: Execution, k: int) -> str:
 def main(tier: str) -> int:
     run = Run(PROP, tier)
     rng = random.Random(run.seed)
+    stores = [s for s in (os.environ.get('VERIF_C11_STORES') or 'dict,pp,fs').split(',')
+              if s in STORES]
     run.cov['rule'] = (
         'executions = behaviours of Namespace.tla (edge cover of the dumped '
-        'state graphs, -simulate behaviours, the matcher enumeration) run on a '
-        'fresh real server each, every step compared; non-trivial = the '
+        'state graphs, -simulate behaviours, the matcher enumeration; one set per '
+        'store: dict, maildir ++, maildir fs) run on a fresh real server each, every '
+        'step compared; non-trivial = the '
         'behaviour changes the set of mailboxes (a CREATE/DELETE/RENAME/APPEND '
         'answered OK) or, for the matcher, lists a hierarchical name set; '
-        'distinct = distinct (concretisation, command sequence)')
+        'distinct = distinct (store, concretisation, command sequence)')
     run.assumptions += [
-        'dict backend only in this round (hierarchy delimiter "/")',
+        'hierarchy delimiter "/" (dict and maildir)',
+        'maildir: every execution on a scratch directory of its own; a connection the '
+        'server closes (BYE) is replaced by a new one of the same user; message bodies '
+        'are compared modulo the line end (maildir stores LF: C03)',
+        'maildir, quick tier: a slice of the behaviours (see maildir_slice); thorough: all',
         'one session, no concurrency (the check-then-act window of '
         'CREATE/DELETE/RENAME is examined with MailboxSync)',
         'names are built from the tokens of Namespace.tla; letters are '
@@ -808,21 +909,34 @@ def main(tier: str) -> int:
         t.start()
         return t
 
+    def tours_of(store):
+        # a leading delimiter is an empty first part: no name of the filesystem layout
+        # (Namespace_odd.cfg asks for one with CREATE); the dict backend holds every name
+        return [(c, n) for c, n in TOURS[tier] + ODD
+                if not (store == 'fs' and c == 'Namespace_lead.cfg')
+                and not (store == 'dict' and (c, n) in ODD)]
+
+    quick_md = tier == 'quick'
     scratch = tlc._scratch('c11cfg')
     try:
-        devs = set(run.known.open)
-        run.notes['deviations_modelled'] = sorted(devs)
+        devs = {st: set(run.known.open) & devs_for(st) for st in stores}
+        run.notes['deviations_modelled'] = {st: sorted(devs[st]) for st in stores}
         threads = [bg('rfc', tlc.run_tlc, SPEC, 'Namespace_rfc.cfg', workers=8)]
-        for cfg, _ in TOURS[tier]:
-            threads.append(bg(cfg, tlc.dump_graph, SPEC,
-                              cfg_with_dev(cfg, devs, scratch), workers=4))
-        threads.append(bg(MATCH[tier], tlc.dump_graph, SPEC,
-                          cfg_with_dev(MATCH[tier], devs, scratch), workers=8,
-                          timeout=3000))
-        nsim, depth = SIM[tier]
-        threads.append(bg('sim', simulate,
-                          cfg_with_dev('Namespace_sim.cfg', devs, scratch),
-                          nsim, depth, run.seed + 1))
+        for st in stores:
+            md = st != 'dict'
+            for cfg, _ in tours_of(st):
+                threads.append(bg((st, cfg), tlc.dump_graph, SPEC,
+                                  cfg_with_dev(cfg, devs[st], scratch, st),
+                                  workers=2 if md else 4))
+            threads.append(bg((st, MATCH[tier]), tlc.dump_graph, SPEC,
+                              cfg_with_dev(MATCH[tier], devs[st], scratch, st),
+                              workers=4 if md else 8, timeout=3000))
+            nsim, depth = SIM[tier]
+            if md and quick_md:
+                nsim = nsim // 2
+            threads.append(bg((st, 'sim'), simulate,
+                              cfg_with_dev('Namespace_sim.cfg', devs[st], scratch, st),
+                              nsim, depth, run.seed + 1 + 7 * stores.index(st)))
         for t in threads:
             t.join()
     except tlc.TLCError as exc:
@@ -846,61 +960,90 @@ def main(tier: str) -> int:
     plan: list = []
     ascii_concs = [c for c in CONCS if c.ascii_only]
     graphs = {}
-    for cfg, max_len in TOURS[tier]:
-        graph, gres = results[cfg]
-        run.add_model(gres, cfg)
+    sliced = {}
+    nmatch = 'match:' + MATCH[tier]
+    for st in stores:
+        md = st != 'dict'
+        lab = '' if not md else '@' + st
+        off = run.seed + stores.index(st)
+        for cfg, max_len in tours_of(st):
+            graph, gres = results[(st, cfg)]
+            run.add_model(gres, cfg + lab)
+            if not gres.ok:
+                run.machinery(f'{cfg}{lab}: {gres.violated or gres.error}')
+                return run.finish()
+            paths = paths_of_graph(graph, max_len)
+            graphs[cfg + lab] = {'nodes': len(graph.nodes), 'edges': graph.n_edges,
+                                 'paths': len(paths),
+                                 'commands': sum(len(s) for _, s in paths)}
+            order = list(range(len(CONCS)))
+            rng.shuffle(order)
+            odd = (cfg, max_len) in ODD
+            nplan = len(plan)
+            for k, (init, steps) in enumerate(paths):
+                if md and quick_md and len(paths) > 30 and (k + off) % MD_SLICE:
+                    continue
+                pool = ascii_concs if odd or has_newline(init, steps) else CONCS
+                reps = pool if (tier == 'thorough' and len(paths) < 400) else \
+                    [pool[order[k % len(order)] % len(pool)]]
+                for conc in reps:
+                    plan.append(Execution('tour:' + cfg, conc, init, steps, store=st))
+            if md:
+                sliced['tour:' + cfg + lab] = f'{len(plan) - nplan} of {len(paths)} paths'
+        graph, gres = results[(st, MATCH[tier])]
+        run.add_model(gres, MATCH[tier] + lab)
         if not gres.ok:
-            run.machinery(f'{cfg}: {gres.violated or gres.error}')
+            run.machinery(f'{MATCH[tier]}{lab}: {gres.violated or gres.error}')
             return run.finish()
-        paths = paths_of_graph(graph, max_len)
-        graphs[cfg] = {'nodes': len(graph.nodes), 'edges': graph.n_edges,
-                       'paths': len(paths),
-                       'commands': sum(len(s) for _, s in paths)}
-        order = list(range(len(CONCS)))
-        rng.shuffle(order)
-        for k, (init, steps) in enumerate(paths):
-            pool = ascii_concs if has_newline(init, steps) else CONCS
-            reps = pool if (tier == 'thorough' and len(paths) < 400) else \
-                [pool[order[k % len(order)] % len(pool)]]
+        mpaths = paths_of_graph(graph, 10 ** 6)
+        graphs[MATCH[tier] + lab] = {'nodes': len(graph.nodes), 'edges': graph.n_edges,
+                                     'paths': len(mpaths),
+                                     'commands': sum(len(s) for _, s in mpaths)}
+        nplan = len(plan)
+        for k, (init, steps) in enumerate(mpaths):
+            big = len(init['mbx']) > 8
+            reps = ascii_concs if tier == 'thorough' or big \
+                else [ascii_concs[(k + run.seed) % len(ascii_concs)]]
+            if tier == 'quick' and big:
+                reps = [ascii_concs[run.seed % len(ascii_concs)],
+                        ascii_concs[(run.seed + 1) % len(ascii_concs)]]
+            if md and quick_md:
+                # the big name sets once, every MD_SLICE-th of the small ones
+                if big:
+                    reps = [ascii_concs[(k + off) % len(ascii_concs)]]
+                elif (k + off) % MD_SLICE:
+                    continue
             for conc in reps:
-                plan.append(Execution('tour:' + cfg, conc, init, steps))
-    graph, gres = results[MATCH[tier]]
-    run.add_model(gres, MATCH[tier])
-    if not gres.ok:
-        run.machinery(f'{MATCH[tier]}: {gres.violated or gres.error}')
-        return run.finish()
-    mpaths = paths_of_graph(graph, 10 ** 6)
-    graphs[MATCH[tier]] = {'nodes': len(graph.nodes), 'edges': graph.n_edges,
-                           'paths': len(mpaths),
-                           'commands': sum(len(s) for _, s in mpaths)}
-    for k, (init, steps) in enumerate(mpaths):
-        reps = ascii_concs if tier == 'thorough' or len(init['mbx']) > 8 \
-            else [ascii_concs[(k + run.seed) % len(ascii_concs)]]
-        if tier == 'quick' and len(init['mbx']) > 8:
-            reps = [ascii_concs[run.seed % len(ascii_concs)],
-                    ascii_concs[(run.seed + 1) % len(ascii_concs)]]
-        for conc in reps:
-            e = Execution('match:' + MATCH[tier], conc, init, steps, probes=False)
-            e.nontrivial = any('/' in n for n in init['mbx'])
-            plan.append(e)
-    behs, sres = results['sim']
-    run.add_model(sres, 'Namespace_sim.cfg(simulate)')
-    if not behs:
-        run.machinery('simulation produced no behaviour: ' + (sres.error or sres.output[-600:]))
-        return run.finish()
-    for k, (init, steps) in enumerate(behs):
-        plan.append(Execution('sim', ascii_concs[rng.randrange(len(ascii_concs))],
-                              init, steps))
+                e = Execution(nmatch, conc, init, steps, probes=False, store=st)
+                e.nontrivial = any('/' in n for n in init['mbx'])
+                plan.append(e)
+        if md:
+            sliced[nmatch + lab] = f'{len(plan) - nplan} executions of {len(mpaths)} name sets'
+        behs, sres = results[(st, 'sim')]
+        run.add_model(sres, 'Namespace_sim.cfg(simulate)' + lab)
+        if not behs:
+            run.machinery('simulation produced no behaviour: '
+                          + (sres.error or sres.output[-600:]))
+            return run.finish()
+        for k, (init, steps) in enumerate(behs):
+            plan.append(Execution('sim', ascii_concs[rng.randrange(len(ascii_concs))],
+                                  init, steps, store=st))
+        run.notes.setdefault('simulated_behaviours', {})[st] = len(behs)
     run.notes['graphs'] = graphs
-    run.notes['simulated_behaviours'] = len(behs)
+    if sliced:
+        run.notes['maildir_slice'] = sliced
 
     # ---- 3. run them on the real server ----------------------------------------
+    # (all TLC work of the prediction is done: the executions are forked from here)
     t_run = time.time()
-    nmatch = 'match:' + MATCH[tier]
-    cand = [i for i, e in enumerate(plan) if e.kind != nmatch]
-    keep = set(rng.sample(cand, min(len(cand), 25 if tier == 'quick' else 200)))
-    keep |= set([i for i, e in enumerate(plan) if e.kind == nmatch
-                 and len(e.init['mbx']) <= 8][:5])
+    keep = set()
+    for st in stores:
+        cand = [i for i, e in enumerate(plan) if e.kind != nmatch and e.store == st]
+        nk = (25 if tier == 'quick' else 200) if st == 'dict' else \
+            (10 if tier == 'quick' else 100)
+        keep |= set(rng.sample(cand, min(len(cand), nk)))
+        keep |= set([i for i, e in enumerate(plan) if e.kind == nmatch and e.store == st
+                     and len(e.init['mbx']) <= 8][:5 if st == 'dict' else 2])
     try:
         run_plan(plan, keep, run.seed)
     except Exception as exc:
@@ -909,40 +1052,59 @@ def main(tier: str) -> int:
     run.notes['replay_wall_s'] = round(time.time() - t_run, 1)
     run.notes['imap_commands'] = sum(e.ncmd for e in plan)
     run.notes['steps_compared'] = sum(e.done_steps for e in plan)
+    run.notes['per_store'] = {
+        st: {'executions': sum(1 for e in plan if e.store == st),
+             'imap_commands': sum(e.ncmd for e in plan if e.store == st),
+             'steps_compared': sum(e.done_steps for e in plan if e.store == st),
+             'connections_closed_by_server': sum(e.byes for e in plan if e.store == st)}
+        for st in stores}
 
     # ---- 4. verdicts -----------------------------------------------------------
     drifted = [e for e in plan if e.drift is not None]
     sample = [plan[i] for i in sorted(keep) if plan[i].drift is None]
     to_judge = drifted[:JUDGE_MAX] + sample
-    try:
-        verd = judge(to_judge)
-    except tlc.TLCError as exc:
-        run.machinery(str(exc))
-        return run.finish()
-    jres = verd.pop('_res', None)
-    if jres is not None:
-        run.notes['judge'] = {'traces': len(to_judge), 'drifted': len(drifted),
-                              'wall_s': round(jres.wall_s, 1),
-                              'states': jres.distinct}
+    verd: dict = {}
+    jnotes = {}
+    jthreads = []
+    jres: dict = {}
+    for st in stores:
+        idx = [i for i, e in enumerate(to_judge) if e.store == st]
+        if idx:
+            jthreads.append((st, idx, bg(('judge', st), judge, [to_judge[i] for i in idx], st)))
+    for st, idx, t in jthreads:
+        t.join()
+        v = results[('judge', st)]
+        if isinstance(v, Exception):
+            run.machinery(f'judge ({st}): {v}')
+            return run.finish()
+        r = v.pop('_res', None)
+        for j, i in enumerate(idx):
+            verd[i] = v[j]
+        if r is not None:
+            jnotes[st] = {'traces': len(idx),
+                          'drifted': sum(1 for i in idx if to_judge[i].drift is not None),
+                          'wall_s': round(r.wall_s, 1), 'states': r.distinct}
+    run.notes['judge'] = jnotes
     for i, e in enumerate(to_judge):
         reached, length, used = verd[i]
         if e.drift is None:
             # it followed NextAsIs, a selection from the allowed outcomes
             if reached < length or used is None:
                 run.machinery(f'judge rejects an execution that matched the model at event '
-                              f'{reached + 1}: {_describe(e, reached)} ({e.kind}, {e.conc.name})')
+                              f'{reached + 1}: {_describe(e, reached)} '
+                              f'({e.kind}, {e.store}, {e.conc.name})')
             continue
         if reached >= length and used is not None:
             d = dict(e.drift)
-            d.update(kind=e.kind, conc=e.conc.name, accepted_by_judge=True,
+            d.update(kind=e.kind, store=e.store, conc=e.conc.name, accepted_by_judge=True,
                      deviations=sorted(used))
             run.drift.append(d)
             for dv in used:
                 e.devs.setdefault(dv, e.drift['step'])
         else:
             last = reached == len(e.events) - 1
-            what = (f'{_describe(e, reached)} [{e.conc.name}, {e.kind}]: the answer is not one '
-                    f'RFC 3501 allows in the state reached'
+            what = (f'{_describe(e, reached)} [{e.store}, {e.conc.name}, {e.kind}]: the answer '
+                    f'is not one RFC 3501 allows in the state reached'
                     + (f' ({e.drift["why"]})' if last else ''))
             run.violation(what, e.replay_dict(reached + 1), None)
     if len(drifted) > JUDGE_MAX:
@@ -952,34 +1114,37 @@ def main(tier: str) -> int:
         for what, detail in e.broken:
             rd = e.replay_dict()
             rd['detail'] = detail
-            run.violation(f'{what} [{e.conc.name}, {e.kind}]', rd, None)
+            run.violation(f'{what} [{e.store}, {e.conc.name}, {e.kind}]', rd, None)
         for dv, k in e.devs.items():
             by_dev.setdefault(dv, []).append((len(e.cmds), e.conc.name, k, e))
-        run.count_exec((e.conc.name, e.kind, e.cmds), nontrivial=e.nontrivial,
+        run.count_exec((e.store, e.conc.name, e.kind, e.cmds), nontrivial=e.nontrivial,
                        validated=e.drift is None or e in to_judge)
     for dv, lst in sorted(by_dev.items()):
         lst.sort(key=lambda x: x[:3])
         for n, (_l, _c, k, e) in enumerate(lst):
-            if dv in run.known.open:
+            # a deviation excuses only on the stores it is a finding of
+            if dv in run.known.open and dv in devs_for(e.store):
                 run.known.excuses(dv)
             elif n < 2:
                 run.violation(f'deviation {dv} at {_describe(e, e.nsetup + k)} '
-                              f'[{e.conc.name}, {e.kind}]',
+                              f'[{e.store}, {e.conc.name}, {e.kind}]',
                               e.replay_dict(e.nsetup + k + 1), dv)
     for e in (plan[:1] + [x for x in plan if x.kind == 'sim'][:1]
               + [x for x in plan if x.kind.startswith('match')][:1]):
-        run.sample({'kind': e.kind, 'conc': e.conc.name, 'cmds': e.cmds[:12],
+        run.sample({'kind': e.kind, 'store': e.store, 'conc': e.conc.name, 'cmds': e.cmds[:12],
                     'wire': [repr(a) for a, _ in e.wire[:8]]})
     run.cov['exhaustive'] = True
     run.notes['exhaustive_scope'] = (
-        'every edge of the NextAsIs graphs of the tour configurations and every '
-        '<name set, reference, pattern> of the matcher configuration, each with at '
-        'least one concretisation; the sanity properties on every allowed outcome of '
-        'Namespace_rfc.cfg')
+        'dict (and, in the thorough tier, both maildir layouts): every edge of the NextAsIs '
+        'graphs of the tour configurations and every <name set, reference, pattern> of the '
+        'matcher configuration, each with at least one concretisation; maildir in the quick '
+        'tier: the slice recorded in maildir_slice; the sanity properties on every allowed '
+        'outcome of Namespace_rfc.cfg')
     run.notes['concretisations'] = {c.name: sum(1 for e in plan if e.conc is c) for c in CONCS}
     run.notes['kinds'] = {}
     for e in plan:
-        run.notes['kinds'][e.kind] = run.notes['kinds'].get(e.kind, 0) + 1
+        k = e.kind + ('' if e.store == 'dict' else '@' + e.store)
+        run.notes['kinds'][k] = run.notes['kinds'].get(k, 0) + 1
     return run.finish()
 
 
@@ -990,8 +1155,8 @@ def replay(path: str) -> int:
     init = {'mbx': {tuple(n): 0 for n in rd['init']['mbx']},
             'sub': {tuple(n) for n in rd['init']['sub']}}
     nsetup = len(init['mbx']) - 1 + len(init['sub'])
-    e = Execution('replay', conc, init, [], backend=rd.get('backend', 'dict'))
-    d = Driver(conc, e.backend)
+    e = Execution('replay', conc, init, [], store=rd.get('store', 'dict'))
+    d = Driver(conc, e.store)
     try:
         prev = set(init['mbx'])
         for c in rd['cmds']:
@@ -1017,7 +1182,7 @@ def replay(path: str) -> int:
                     print('   S:', ln)
     finally:
         d.close()
-    verd = judge([e])
+    verd = judge([e], e.store)
     reached, length, used = verd[0]
     if reached < length or used is None:
         print(f'VIOLATION property={PROP} replay={path}')
@@ -1026,7 +1191,8 @@ def replay(path: str) -> int:
         return 1
     print(f'accepted by Trace_Namespace ({length} events), deviations used: {sorted(used)}')
     known = Run(PROP, 'replay').known
-    bad = [dv for dv in sorted(used) if not known.excuses(dv)]
+    bad = [dv for dv in sorted(used)
+           if not (dv in devs_for(e.store) and known.excuses(dv))]
     known.print_seen()
     if bad:
         print(f'VIOLATION property={PROP} replay={path}')
